@@ -5,7 +5,8 @@
 From Coq Require Import ZArith List Bool Lia.
 Import ListNotations.
 Require Import RV.Lib.DecCore RV.Lib.DecCoreFacts RV.Model.C25_Round RV.Model.C24_Dec RV.Model.C26_RootPow
-  RV.Proof.C25_Round RV.Proof.C24_Dec RV.Proof.C26_RootPow.
+  RV.Proof.C25_Round RV.Proof.C24_Dec RV.Proof.C26_RootPow RV.Proof.C26_Powi RV.Proof.C26_PowiMag
+  RV.Proof.C26_PowiUnit RV.Proof.C26_PowiExact.
 Open Scope Z_scope.
 
 Definition IsFmt (f : fmt) : Prop := f = DEC \/ f = PDEC.
@@ -63,6 +64,59 @@ Theorem C26_powi_unit_bases_partial :
   dec_powi DEC (- one DEC) I64_MAX = Ok (- one DEC).
 Proof. exact powi_refuted. Qed.
 
+(* ---------------------------------------------------------------------------------------------- *)
+(* checked_powi, all bases and all i64 exponents.  In subunits the exact value of (x/ONE)^e is
+   x^e / ONE^(e-1) for e >= 1 and ONE^(|e|+1) / x^|e| for e < 0. *)
+
+(* never a panic (and the model never runs out of fuel): the result is None or a representable value *)
+Theorem C26_powi_never_panics : forall f x exp, IsFmt f -> InF f x -> I64_MIN <= exp <= I64_MAX ->
+  dec_powi f x exp = Err ENone \/ exists r, dec_powi f x exp = Ok r /\ InF f r.
+Proof. intros f x exp Hf. apply powi_total, IsFmt_ok, Hf. Qed.
+
+(* truncation only shrinks: a returned value never exceeds the exact power in magnitude *)
+Theorem C26_powi_magnitude : forall f x exp r, IsFmt f -> InF f x -> I64_MIN <= exp <= I64_MAX ->
+  dec_powi f x exp = Ok r ->
+  (1 <= exp -> Z.abs r * one f ^ (exp - 1) <= Z.abs x ^ exp) /\
+  (exp = 0 -> r = one f) /\
+  (exp < 0 -> Z.abs r * Z.abs x ^ (- exp) <= one f ^ (- exp + 1)).
+Proof. intros f x exp r Hf. apply powi_mag, IsFmt_ok, Hf. Qed.
+
+(* bases 1 and -1: exact for every exponent other than i64::MIN *)
+Theorem C26_powi_unit_bases : forall f exp, IsFmt f -> I64_MIN < exp <= I64_MAX ->
+  dec_powi f (one f) exp = Ok (one f) /\
+  dec_powi f (- one f) exp = Ok (if Z.rem exp 2 =? 0 then one f else - one f).
+Proof. intros f exp Hf. apply powi_unit, IsFmt_ok, Hf. Qed.
+
+(* the strongest statement proved outside the known class {exp = i64::MIN, base = +-1}: no panic,
+   magnitude bound, and exactness on the unit bases (where the known class lives) *)
+Theorem C26_powi_except_known : forall f x exp, IsFmt f -> InF f x -> I64_MIN <= exp <= I64_MAX ->
+  ~ KnownPowi f x exp ->
+  (dec_powi f x exp = Err ENone \/ exists r, dec_powi f x exp = Ok r /\ InF f r) /\
+  (forall r, dec_powi f x exp = Ok r ->
+     (1 <= exp -> Z.abs r * one f ^ (exp - 1) <= Z.abs x ^ exp) /\ (exp = 0 -> r = one f) /\
+     (exp < 0 -> Z.abs r * Z.abs x ^ (- exp) <= one f ^ (- exp + 1))) /\
+  (x = one f -> dec_powi f x exp = Ok (one f)) /\
+  (x = - one f -> dec_powi f x exp = Ok (if Z.rem exp 2 =? 0 then one f else - one f)).
+Proof.
+  intros f x exp Hf Hx He Hk.
+  split; [apply C26_powi_never_panics; assumption|].
+  split; [intros r Hr; apply (C26_powi_magnitude f x exp r); assumption|].
+  assert (Hne : x = one f \/ x = - one f -> I64_MIN < exp <= I64_MAX).
+  { intros Hu. destruct (Z.eq_dec exp I64_MIN) as [E|E]; [|lia]. exfalso. apply Hk. split; assumption. }
+  split; intros ->.
+  - apply (C26_powi_unit_bases f exp Hf). apply Hne. left; reflexivity.
+  - apply (C26_powi_unit_bases f exp Hf). apply Hne. right; reflexivity.
+Qed.
+
+(* PARTIAL: when no division along the square-and-multiply recursion truncates, a returned value is
+   the exact power.  Missing for the literal "exact whenever representable": that a representable
+   exact result forces every intermediate to be exact and in range (a 2-adic / 5-adic valuation
+   argument), so that the function then returns Some — decided by the harness oracle only. *)
+Theorem C26_powi_exact_if_no_truncation_partial : forall f x exp r, IsFmt f -> InF f x ->
+  1 <= exp <= I64_MAX -> dec_powi f x exp = Ok r -> steps_exact f 66 x exp ->
+  r * one f ^ (exp - 1) = x ^ exp.
+Proof. intros f x exp r Hf. apply powi_exact_if_steps_exact, IsFmt_ok, Hf. Qed.
+
 Example C26_nonvacuous :
   dec_sqrt DEC 2000000000000000000 = Ok 1414213562373095048 /\
   dec_cbrt DEC (-8000000000000000000) = Ok (-2000000000000000000) /\
@@ -78,3 +132,7 @@ Print Assumptions C26_sqrt.
 Print Assumptions C26_cbrt.
 Print Assumptions C26_nth_root.
 Print Assumptions C26_powi_refuted.
+Print Assumptions C26_powi_never_panics.
+Print Assumptions C26_powi_magnitude.
+Print Assumptions C26_powi_except_known.
+Print Assumptions C26_powi_exact_if_no_truncation_partial.
